@@ -143,6 +143,10 @@ impl Monitor for C02 {
                 }
             }
 
+            if matches!(ix.tag, "transfer_to_new_account" | "transfer_to_new_account_pda") {
+                // a transfer moves positions between accounts: per-bank sums must not move at all
+                self.cov.probe("transfer");
+            }
             for (bk, bank_b) in banks_b.iter() {
                 let Some(bank_a) = banks_a.get(bk) else {
                     // bank created by this instruction: totals must start at the positions (zero)
@@ -253,9 +257,6 @@ impl Monitor for C02 {
                     }
                 }
                 match ix.tag {
-                    "transfer_to_new_account" | "transfer_to_new_account_pda" => {
-                        self.cov.probe("transfer")
-                    }
                     "handle_bankruptcy" => self.cov.probe("bankruptcy"),
                     "liquidate" => self.cov.probe("liquidation"),
                     _ => {}
